@@ -20,6 +20,12 @@ def nest {α : Type} [DecidableEq α] : List α → List (Ev α) → Option (Lis
     | t :: r => if t = l then nest r es else none
     | [] => none
 
+/-- how a walk was cancelled -/
+inductive Stop where
+  | done
+  | error
+deriving DecidableEq, Repr
+
 /-- monitor state while replaying a log against the visitor's actions -/
 structure Mon (α : Type) where
   /-- entered, not yet exited; innermost first -/
@@ -27,7 +33,7 @@ structure Mon (α : Type) where
   /-- after a Consume in Enter/Visit of `l`: the next event must be `Exit l` -/
   must : Option α
   /-- after SetDone / SetError: no event may follow -/
-  stopped : Option Act
+  stopped : Option Stop
 deriving Repr
 
 def Mon.init {α : Type} : Mon α := { opened := [], must := none, stopped := none }
@@ -37,8 +43,8 @@ def Mon.after {α : Type} (m : Mon α) (a : Act) (l : α) (isExit : Bool) : Mon 
   match a with
   | .continue => m
   | .consume => if isExit then m else { m with must := some l }
-  | .done => { m with stopped := some .done }
-  | .error => { m with stopped := some .error }
+  | .done _ => { m with stopped := some .done }
+  | .error _ => { m with stopped := some .error }
 
 /-- one event `e` in whose callback the visitor took action `a` -/
 def Mon.step {α : Type} [DecidableEq α] (m : Mon α) (a : Act) (e : Ev α) : Option (Mon α) :=
@@ -101,7 +107,7 @@ structure Frame (α : Type) where
 structure TMon (α : Type) where
   stack : List (Frame α)      -- innermost first
   must : Option α
-  stopped : Option Act
+  stopped : Option Stop
 
 def TMon.init {α : Type} (t : Tree α) : TMon α := { stack := [⟨none, [t]⟩], must := none, stopped := none }
 
@@ -109,8 +115,8 @@ def TMon.after {α : Type} (m : TMon α) (a : Act) (l : α) (isExit : Bool) : TM
   match a with
   | .continue => m
   | .consume => if isExit then m else { m with must := some l }
-  | .done => { m with stopped := some .done }
-  | .error => { m with stopped := some .error }
+  | .done _ => { m with stopped := some .done }
+  | .error _ => { m with stopped := some .error }
 
 def TMon.step {α : Type} [DecidableEq α] (m : TMon α) (a : Act) (e : Ev α) : Option (TMon α) :=
   if m.stopped.isSome then none else
